@@ -23,6 +23,8 @@ func init() {
 			{ID: "C03.R1", Min: 12, Doc: "name only: at every call site of a filter entry point the argument has kind NAME (fields[0] of bytes.Fields, ValidatePacket's key, line[:IndexByte(line,' ')], RW.Do of a NAME, or a NAME parameter), and no store to the name slot can occur between reading it and the call", Run: c03r1},
 			{ID: "C03.R2", Min: 4, Doc: "aggregation filter completeness: in AddMaybe every path to the send on Aggregator.in passed the true edge of PreMatch(name); in run every path to AddOrCreate passed the ok edge of matchWithCache; the matcher fields read by PreMatch and MatchRegexAndExpand cover prefix, notPrefix, sub, notSub, regex, notRegex", Run: c03r2},
 			{ID: "C03.R3", Min: 3, Doc: "truth table: enumerate all paths of Match / PreMatch / MatchRegexAndExpand as partial assignments of atoms (option set? predicate true?) and compare the returned constant with the documented formula in three-valued logic", Run: c03r3},
+			{ID: "C03.R5", Min: 10, Doc: "only complete filters are installed: at every call site of matcher.New each use of the returned Matcher is dominated by the no-error edge of the test of the returned error (or returns it together with that error) — on a compile error New returns a Matcher whose regex/notRegex are nil, i.e. one that ignores those options", Run: c03r5},
+			{ID: "C03.R6", Min: 24, Doc: "a runtime filter update changes only the options it names: in route.update and Destination.Update each matcher.New argument comes from the case of the equally named option, or else from the equally named field of the filter in force (part of rule C20.R1 evaluated for this property as well)", Run: c03r6},
 			{ID: "C03.R4", Min: 4, Doc: "cache transparency: every access to Aggregator.reCache is under reCacheMutex; lookups and updates in matchWithCache use string(key) of the key parameter; stored entries derive from MatchRegexAndExpand(key, ...) or from the entry just looked up", Run: c03r4},
 		},
 	})
@@ -129,6 +131,18 @@ func c03r1(c *Check) {
 			c.Hold(key, c.At(in), "argument is the current metric name")
 		})
 	}
+}
+
+func c03r5(c *Check) {
+	n := errGated(c, "matcher.New", modPath+"/matcher.New", "the Matcher returned by matcher.New")
+	if n == 0 {
+		anchorFail("no call site of matcher.New")
+	}
+}
+
+func c03r6(c *Check) {
+	checkStringSwitchMatcher(c, c.P.Func("route", "*baseRoute", "update"), "route.baseRoute.update (modRoute)", true)
+	checkStringSwitchMatcher(c, c.P.Func("destination", "*Destination", "Update"), "destination.Destination.Update (modDest)", true)
 }
 
 func c03r2(c *Check) {
@@ -258,12 +272,13 @@ func c03r2(c *Check) {
 	read := map[string]bool{}
 	for _, fname := range []string{"PreMatch", "MatchRegexAndExpand"} {
 		fn := c.P.Func("matcher", "*Matcher", fname)
-		allInstrs(fn, func(in ssa.Instruction) {
-			if fa, ok := in.(*ssa.FieldAddr); ok {
-				// count only reads that feed a branch condition or a predicate call
-				read[fieldOfAddr(fa).Name()] = true
-			}
-		})
+		for _, f := range samePkgCallees(c.P, fn) {
+			allInstrs(f, func(in ssa.Instruction) {
+				if fa, ok := in.(*ssa.FieldAddr); ok {
+					read[fieldOfAddr(fa).Name()] = true
+				}
+			})
+		}
 	}
 	var missing []string
 	for _, w := range want {
@@ -440,8 +455,50 @@ func c03r3(c *Check) {
 		fn := c.P.Func("matcher", "*Matcher", sp.fn)
 		recv, subj := ssa.Value(fn.Params[0]), ssa.Value(fn.Params[1])
 		var problems []string
-		cfg := &PathCfg{Branch: func(ifi *ssa.If, cond ssa.Value, taken bool) []string {
-			a, neg, why := atomOf(cond, recv, subj)
+		// helpers of package matcher are expanded in place; a helper stands for the same (matcher, name)
+		// pair only if it is called with exactly these two values
+		isHelper := func(f *ssa.Function) bool {
+			return f != nil && f.Blocks != nil && fnPkg(f) == fnPkg(fn) && f.Signature.Recv() != nil && len(f.Params) >= 2
+		}
+		roles := map[*ssa.Function][2]ssa.Value{fn: {recv, subj}}
+		badHelper := map[*ssa.Function]bool{}
+		work := []*ssa.Function{fn}
+		for len(work) > 0 {
+			f := work[len(work)-1]
+			work = work[:len(work)-1]
+			allInstrs(f, func(in ssa.Instruction) {
+				call, ok := in.(*ssa.Call)
+				if !ok {
+					return
+				}
+				g := call.Call.StaticCallee()
+				if !isHelper(g) || g == fn {
+					return
+				}
+				r := roles[f]
+				if len(call.Call.Args) >= 2 && call.Call.Args[0] == r[0] && call.Call.Args[1] == r[1] {
+					if _, seen := roles[g]; !seen {
+						roles[g] = [2]ssa.Value{g.Params[0], g.Params[1]}
+						work = append(work, g)
+					}
+				} else {
+					badHelper[g] = true
+				}
+			})
+		}
+		cfg := &PathCfg{Inline: func(g *ssa.Function) bool { return isHelper(g) && g != fn }, Branch: func(ifi *ssa.If, cond ssa.Value, taken bool) []string {
+			// the result of an expanded helper: its own decisions are already on the path
+			if cnd, _ := negStrip(cond); cnd != nil {
+				if call, ok := cnd.(*ssa.Call); ok && isHelper(call.Call.StaticCallee()) {
+					return nil
+				}
+			}
+			g := ifi.Parent()
+			r, ok := roles[g]
+			if !ok || badHelper[g] {
+				return []string{"?:helper " + g.Name() + " is applied to something other than this matcher and the name"}
+			}
+			a, neg, why := atomOf(cond, r[0], r[1])
 			if a == "" {
 				return []string{"?:" + why}
 			}
